@@ -239,12 +239,21 @@ fn sweep_execute(seed: u64, faults: &[SweepFault], report: &mut Report, plan: &m
     list
 }
 
+fn report_pairs_distinct(plan: &mut Vec<String>, total: u64) {
+    plan.push(format!("pair enumeration: {total} pairs of single faults in this scenario"));
+}
+
 /// Enumerated single-fault / peer-crash sweep over a small scenario (one element per run).
 fn sweep(ctx: &RunCtx, elem: u64) -> Report {
-    let group = elem / 256;
-    let within = (elem % 256) as usize;
-    let seed = crate::rng::key(ctx.base, &[crate::rng::tag("c06-sweep"), group]);
-    let mut plan = vec![format!("sweep group={group} element={within} scenario_seed={seed}")];
+    // thorough tier: the element space alternates between 4096 elements of single-fault groups (16
+    // scenarios x 256 elements, as in the quick tier) and 4096 elements that enumerate *every pair* of
+    // single faults of one further scenario in lexicographic order
+    let pairs_mode = ctx.tier == Tier::Thorough && (elem / 4096) % 2 == 1;
+    let dense = if ctx.tier == Tier::Thorough { (elem / 8192) * 4096 + elem % 4096 } else { elem };
+    let group = if pairs_mode { elem / 8192 } else { dense / 256 };
+    let within = if pairs_mode { (elem % 4096) as usize } else { (dense % 256) as usize };
+    let seed = crate::rng::key(ctx.base, &[crate::rng::tag(if pairs_mode { "c06-pairs" } else { "c06-sweep" }), group]);
+    let mut plan = vec![format!("sweep {}group={group} element={within} scenario_seed={seed}", if pairs_mode { "all-pairs " } else { "" })];
     // baseline (fault-free): which datagrams exist
     let mut base_report = Report::default();
     let list = sweep_execute(seed, &[], &mut base_report, &mut vec![]);
@@ -278,7 +287,22 @@ fn sweep(ctx: &RunCtx, elem: u64) -> Report {
         };
         SweepFault::Dgram(d.0, d.1, d.2, e)
     };
-    if within < singles {
+    if pairs_mode {
+        let m = singles as u64;
+        let total = m * (m - 1) / 2;
+        let mut idx = within as u64 % total.max(1);
+        let mut a = 0u64;
+        while m > 1 && idx >= m - 1 - a {
+            idx -= m - 1 - a;
+            a += 1;
+        }
+        let b = a + 1 + idx;
+        faults.push(dgram_fault(a as usize));
+        faults.push(dgram_fault((b % m) as usize));
+        if (within as u64) < total {
+            report_pairs_distinct(&mut plan, total);
+        }
+    } else if within < singles {
         faults.push(dgram_fault(within));
     } else if within < singles + crashes {
         let c = within - singles;
@@ -303,6 +327,16 @@ fn sweep(ctx: &RunCtx, elem: u64) -> Report {
     }
     if faults.len() > 1 {
         report.probe("sweep_pair", 1);
+    }
+    if pairs_mode {
+        report.probe("sweep_enumerated_pair", 1);
+        if (within as u64) < (singles as u64) * (singles as u64 - 1) / 2 {
+            report.probe("sweep_enumerated_pair_first_pass", 1);
+        }
+        if within == 0 {
+            report.probe("sweep_pair_scenarios", 1);
+            report.probe("sweep_pair_scenarios_total_pairs", (singles as u64) * (singles as u64 - 1) / 2);
+        }
     }
     report.fingerprint = crate::rng::key(report.fingerprint, &[group, within as u64]);
     report.sample = Some(json!({"sweep": plan}));
